@@ -1,4 +1,4 @@
-(* Props/C38_asfound.v — property C38, the code AS FOUND (ppci commit 1a712d0): refutations.
+(* Props/C38_asfound.v — property C38, the code AS FOUND (ppci snapshot 722bf2e; constantfolding.py was unchanged until the C38 repairs): refutations.
    These theorems are about the frozen hand model Model.ConstFoldOrig; every witness is re-executed on
    the real pass by tools/props/c38.py on every run (a reproducing witness is reported as a violation).
    They record why the three repairs fixes/C38-*.diff were needed. *)
